@@ -622,6 +622,77 @@ def run_empty_compare(chk, spec):
 
 RUNNERS.update({"empty_compare": run_empty_compare})
 
+
+def run_optimized_interpreter(chk, spec):
+	"""the same refusals under `python -O`, where `assert` statements are compiled away: a wrong-length mask (or operand, or column) is still refused - by a real check"""
+	import json, os, subprocess, sys
+	from .. import bind
+	script = os.path.join(os.path.dirname(os.path.dirname(os.path.abspath(__file__))), "optimized_probe.py")
+	outs = {}
+	for flag in ("-O", ""):
+		cmd = [sys.executable] + ([flag] if flag else []) + [script, bind.REPO_SRC]
+		try:
+			p = subprocess.run(cmd, capture_output=True, text=True, timeout=120, env=dict(os.environ, PYTHONDONTWRITEBYTECODE="1", PYTHONOPTIMIZE="" if not flag else "1"))
+			outs[flag] = json.loads((p.stdout.strip().splitlines() or ["{}"])[-1])
+		except Exception:
+			chk.skip("optimized-probe-no-report")
+			return
+	if not outs[""].get("outcomes") or not outs["-O"].get("outcomes") or outs["-O"].get("debug") is not False:
+		chk.skip("optimized-probe-no-report")
+		return
+	chk.judged("table-rows", ("optimized-interpreter", len(outs["-O"]["outcomes"])))
+	for label, plain in outs[""]["outcomes"].items():
+		opt = outs["-O"]["outcomes"].get(label)
+		if plain.startswith("raises:") and opt is not None and not opt.startswith("raises:"):
+			chk.fail("a wrong-length mask / operand is refused", f"optimized-interpreter/refusal-rests-on-assert/{label.replace(' ', '-')}", f"{label}: a normal interpreter {plain}; under python -O it {opt}")
+			return
+		if plain.startswith("returned:") and opt != plain:
+			chk.fail("results do not depend on the interpreter's optimisation flag", f"optimized-interpreter/differs/{label.replace(' ', '-')}", f"{label}: a normal interpreter {plain}; under python -O {opt}")
+			return
+
+
+RUNNERS.update({"optimized_interpreter": run_optimized_interpreter})
+
+
+def run_promoted_right_operand(chk, spec):
+	"""a date vector that an in-place write promoted to <datetime> (its class is still the date vector class) as the RIGHT operand of a comparison with a date vector: the
+	answers are those a freshly built vector of the same cells gives"""
+	import operator
+	from datetime import date, datetime
+	days = [date(2020, 1, 1), date(2020, 1, 2), None, date(2020, 1, 4)]
+	stamps = [date(2020, 1, 1), date(2020, 1, 3), date(2020, 1, 3), None]
+	left = Vector(list(days))
+	right = Vector(list(stamps))
+	w = call(right.__setitem__, spec["at"], datetime(2020, 1, 2, 0, 0) if spec["midnight"] else datetime(2020, 1, 2, 9, 30))
+	if not w.ok:
+		chk.skip("promotion-refused")
+		return
+	cells = list(right._underlying)
+	fresh = Vector(list(cells))
+	op = getattr(operator, spec["opname"])
+	pairs = {"vector": (lambda: op(left, right), lambda: op(left, fresh)), "reflected": (lambda: op(right, left), lambda: op(fresh, left)), "mask-select": (lambda: left[op(left, right)], lambda: left[op(left, fresh)])}[spec["form"]]
+	a, b = call(pairs[0]), call(pairs[1])
+	chk.judged("compare", ("promoted-right-operand", spec["opname"], spec["form"], spec["at"], spec["midnight"]))
+	if a.ok != b.ok or (a.ok and list(a.value._underlying) != list(b.value._underlying)):
+		chk.fail("comparisons are computed elementwise by Python's own comparison", f"compare/promoted-date-operand-differs-from-rebuilt/{spec['form']}/{spec['opname']}",
+			f"{spec!r}: right operand cells {cells!r}: long-lived operand gives {short(a, 120)}, a vector rebuilt from its cells gives {short(b, 120)}")
+		return
+	if a.ok and spec["form"] != "mask-select":
+		exp = []
+		for x, y in zip(days, cells):
+			if x is None or y is None:
+				exp.append(False)
+				continue
+			xx = datetime.combine(x, datetime.min.time()) if isinstance(y, datetime) and not isinstance(x, datetime) else x
+			yy = datetime.combine(y, datetime.min.time()) if not isinstance(y, datetime) else y
+			xx = xx if isinstance(xx, datetime) else datetime.combine(xx, datetime.min.time())
+			exp.append(bool(op(xx, yy)) if spec["form"] == "vector" else bool(op(yy, xx)))
+		if list(a.value._underlying) != exp:
+			chk.fail("comparisons are computed elementwise by Python's own comparison", f"compare/promoted-date-operand/wrong/{spec['form']}/{spec['opname']}", f"{spec!r}: {list(a.value._underlying)!r}, expected {exp!r}")
+
+
+RUNNERS.update({"promoted_right_operand": run_promoted_right_operand})
+
 def run_self_compare(chk, spec):
 	# x <op> x, the object itself on both sides (a vector, a row kept from a table, a whole table): the same answer as x <op> (an equal,
 	# separate object) - the library copies an operand that is the left operand itself, and that copy has to work for every kind of vector
@@ -1008,6 +1079,12 @@ def run(chk):
 		if n and len(set(ts["names"])) == len(ts["names"]):
 			chk.case("self_compare", {"table": ts, "target": rng.choice(["table", "row", "column"]), "i": rng.randrange(n), "opname": rng.choice(["eq", "ne", "lt", "le", "gt", "ge"])}, "compare")
 		if _ == 0:
+			chk.case("optimized_interpreter", {}, "optimized-interpreter")
+			for opname in ("eq", "ne", "lt", "le", "gt", "ge"):
+				for form in ("vector", "mask-select"):      # (promoted operand on the right; with it on the LEFT Python's own datetime-with-date comparison decides, see DESIGN section 7)
+					for at in (1, 3):
+						for midnight in (False, True):
+							chk.case("promoted_right_operand", {"opname": opname, "form": form, "at": at, "midnight": midnight}, "compare-promoted-right-operand")
 			for kind in ("date", "int", "str", "datetime-promoted"):
 				for opname in ("eq", "ne", "lt", "ge"):
 					for side in ("typed-left", "typed-right"):
